@@ -18,10 +18,11 @@ def shared_loop() -> DetLoop:
 
 
 class Outcome:
-    __slots__ = ("messages", "error", "error_msg", "limit", "tail", "upgraded", "eof_error", "eof_msg", "other_exc", "retained_max", "unusable_url")
+    __slots__ = ("messages", "error", "error_msg", "limit", "tail", "upgraded", "eof_error", "eof_msg", "other_exc", "retained_max", "unusable_url", "unrenderable")
 
     def __init__(self) -> None:
         self.messages: list[dict] = []
+        self.unrenderable: str | None = None  # the error cannot be turned into a 400 body the way the server does
         self.error: str | None = None  # exception class name raised by feed_data
         self.error_msg = ""
         self.limit = False  # error is a size-limit error
@@ -126,6 +127,11 @@ def drive(kind: str, stream: bytes, cuts=(), *, limits: dict | None = None, read
             out.error = type(e).__name__
             out.error_msg = str(e)[:200]
             out.limit = isinstance(e, LineTooLong) or "Too many" in str(e)
+            try:
+                # web_protocol renders exc.message into the text of the 400 response
+                str(e.message).encode("utf-8")
+            except Exception as enc:  # noqa: BLE001
+                out.unrenderable = f"{type(e).__name__}.message={e.message!r}: {enc}"
             return
         except BaseException as e:  # noqa: BLE001
             state["stop"] = True
